@@ -13,11 +13,11 @@ git -C /repo worktree prune
 git -C /repo worktree add --detach $WT HEAD >/dev/null 2>&1 || { echo "worktree failed"; exit 2; }
 mkdir -p $SNAP && git -C /verif archive HEAD | tar -x -C $SNAP
 cd $WT
-echo "== demo without change:"; /venv/bin/python -W ignore $DIR/demo.py >/tmp/seedchk/$ID-$NAME.demo0.log 2>&1; echo "exit $?"
+echo "== demo without change:"; PYTHONPATH=$WT /venv/bin/python -W ignore $DIR/demo.py >/tmp/seedchk/$ID-$NAME.demo0.log 2>&1; echo "exit $?"
 if git apply --check $DIR/patch.diff 2>/dev/null; then git apply $DIR/patch.diff; else git apply -3 $DIR/patch.diff >/dev/null 2>&1 || { echo "PATCH DOES NOT APPLY"; git -C /repo worktree remove --force $WT; exit 3; }; fi
 git diff HEAD > /tmp/seedchk/$ID-$NAME.rebased.diff
 echo "== tests with change:"; /venv/bin/python -W ignore -m pytest -q -p no:cacheprovider --timeout=900 2>&1 | tail -1
-echo "== demo with change:"; /venv/bin/python -W ignore $DIR/demo.py >/tmp/seedchk/$ID-$NAME.demo1.log 2>&1; echo "exit $?"
+echo "== demo with change:"; PYTHONPATH=$WT /venv/bin/python -W ignore $DIR/demo.py >/tmp/seedchk/$ID-$NAME.demo1.log 2>&1; echo "exit $?"
 for c in $CHECKS; do
   echo "== check $c with change:"; (cd $SNAP && HIVE_REPO=$WT ./check $c --tier quick 2>&1 | grep -E "VIOLATION|KNOWN|DIVERGENCE|MACHINERY|done:" | cut -c1-300 | head -8; echo "check exit ${PIPESTATUS[0]}")
 done
